@@ -38,13 +38,22 @@ structure Spell where
   cas : ComplexAs
   iw : Bool
   poly : Bool
+  /-- is the class written without its wrapper although wrappers are kept (`not_wrapped`)? -/
+  nw : Text → Bool
   /-- member / wrapper name → key -/
   kOut : Text → Key
   /-- non-null leaf value → document -/
   lOut : PrimTy → Val → Doc
 
 def ownSpell (F : Facts08) (cfg : Cfg) : Spell :=
-  { cas := cfg.complexAs, iw := cfg.ignoreWrappers, poly := cfg.polymorphic, kOut := keyOut cfg, lOut := leafOut F cfg }
+  { cas := cfg.complexAs, iw := cfg.ignoreWrappers, poly := cfg.polymorphic, nw := fun n => cfg.notWrapped.contains n,
+    kOut := keyOut cfg, lOut := leafOut F cfg }
+
+/-- the protocol's own spelling as the code has it: each of the two branches of `_complex_to_dict` honours `not_wrapped`
+    or not (measured) -/
+def ownSpellG (F : Facts08) (G : Facts02) (cfg : Cfg) : Spell :=
+  { ownSpell F cfg with
+    nw := fun n => (if cfg.proto.isMsgpack then G.notWrappedBytesKeys else G.notWrappedStrKeys) && cfg.notWrapped.contains n }
 
 section
 variable (S : Spell) (R : Registry)
@@ -64,7 +73,7 @@ def wrapPairs (cls : Text) (pairs : List (Text × Doc)) : Doc :=
   | .list => .list (pairs.map (·.2))
   | .dict =>
     let d := Doc.map (pairs.map (fun p => (S.kOut p.1, p.2)))
-    if S.iw then d else .map [(S.kOut cls, d)]
+    if S.iw || S.nw cls then d else .map [(S.kOut cls, d)]
 
 /-- `_get_member_pairs`: is the pair yielded? -/
 def emits (t : Ty) (d : Doc) : Bool :=
@@ -255,7 +264,7 @@ def encodeResponse (method : Text) (ret : Ty) (v : Val) : Doc :=
 
 /-- `_object_to_doc(t, v, set())` for a value whose nodes are the Python objects `ids`, with the cycle guard the code has -/
 def encodeIds (G : Facts02) (t : Ty) (v : Val) (ids : Ids) : Doc :=
-  (encodeG (!G.guardPathLocal) (ownSpell F cfg) R t v ids []).1
+  (encodeG (!G.guardPathLocal) (ownSpellG F G cfg) R t v ids []).1
 
 /-- `serialize` for a response whose result `v` is made of the Python objects `ids` -/
 def encodeResponseIds (G : Facts02) (method : Text) (ret : Ty) (v : Val) (ids : Ids) : Doc :=
